@@ -450,17 +450,21 @@ convert_drcs(cache_page *vtp, uint8_t *raw)
 			break;
 
 		case DRCS_MODE_6_5_4:
-			for (j = 0; j < 20; p += 4, d += 6, j++) {
+			/* One PTU of 20 bytes: five rows of six pixels in
+			   four bit planes. Each pixel is doubled in both
+			   directions to fill the 12 x 10 character cell
+			   (60 bytes), not more. */
+			for (j = 0; j < 5; p += 4, d += 12, j++) {
 				q = expand[p[0] & 0x3F]
 				  + expand[p[1] & 0x3F] * 2
 				  + expand[p[2] & 0x3F] * 4
 				  + expand[p[3] & 0x3F] * 8;
-				d[0] = (q & 15) * 0x11;
-				d[1] = ((q >> 4) & 15) * 0x11;
-				d[2] = ((q >> 8) & 15) * 0x11;
-				d[3] = ((q >> 12) & 15) * 0x11;
-				d[4] = ((q >> 16) & 15) * 0x11;
-				d[5] = (q >> 20) * 0x11;
+				d[0] = d[6] = (q & 15) * 0x11;
+				d[1] = d[7] = ((q >> 4) & 15) * 0x11;
+				d[2] = d[8] = ((q >> 8) & 15) * 0x11;
+				d[3] = d[9] = ((q >> 12) & 15) * 0x11;
+				d[4] = d[10] = ((q >> 16) & 15) * 0x11;
+				d[5] = d[11] = (q >> 20) * 0x11;
 			}
 			break;
 
